@@ -59,13 +59,18 @@ func DecodeAny(v *model.Msg) (md protoreflect.MessageDescriptor, emb *model.Msg,
 //	exact: v without unknown fields and with every decodable Any payload re-encoded
 //	       deterministically from its normalised content (what proto.Equal can be asked about);
 //	nanInAny: an Any payload holds a NaN (its payload bytes then depend on the NaN representative).
+// TextualKeepRaw, when set, names the type URLs whose Any is NOT expanded by the format under test
+// (prototext keeps the raw type_url/value form when the URL cannot be written between brackets):
+// such an Any is compared as plain fields with its payload bytes untouched.
+var TextualKeepRaw func(url string) bool
+
 func Textual(md protoreflect.MessageDescriptor, v *model.Msg, r model.Resolver) (sem, exact *model.Msg, nanInAny bool) {
 	sem, exact = &model.Msg{}, &model.Msg{}
 	if v == nil {
 		return
 	}
 	if md.FullName() == "google.protobuf.Any" {
-		if emd, emb, ok := DecodeAny(v); ok {
+		if emd, emb, ok := DecodeAny(v); ok && !(TextualKeepRaw != nil && v.Get(1) != nil && TextualKeepRaw(string(v.Get(1).Vals[0].B))) {
 			esem, eexact, nan := Textual(emd, emb, r)
 			if nan || hasNaN(emd, esem, r) {
 				nanInAny = true
